@@ -197,6 +197,9 @@ func chainMutations(purpose string) []chainMut {
 	// key roll-over: an intermediate that names itself as issuer (same name as its parent) but is signed by the parent's other key:
 	// self-issued, not self-signed. Nothing in the specification exempts it from anything.
 	add("self-issued-intermediate", true, "nonroot-ca", func(s []*CertSpec, p int) { s[p].CN = s[p+1].CN })
+	// a certificate without a subject name (empty sequence, critical subjectAltName): nothing in the specification looks at the
+	// content of a name, only at whether issuer and subject fields agree
+	add("empty-subject", true, "any", func(s []*CertSpec, p int) { s[p].EmptySubject = true })
 	add("root-not-self-issued", false, "root", func(s []*CertSpec, p int) { s[p].IssuerCN = "higher-root" })
 	return m
 }
